@@ -197,6 +197,11 @@ pub fn minimise_and_write(
         Some(s) => s.clone(),
         None => crate::gen::generate(failing.seed, &failing.flavor),
     };
+    let orig_spec = spec.clone();
+    let orig_prefix: Vec<(u64, String)> = prefix_jobs
+        .iter()
+        .map(|j| (j.seed, j.flavor.clone()))
+        .collect();
     let original_ops = spec.total_ops();
     let original_threads = spec.threads();
     let original_crashes = spec.crashes.len();
@@ -416,12 +421,44 @@ pub fn minimise_and_write(
     let path = format!("/verif/replays/C18-{}-{}.json", rec.seed, std::process::id());
     std::fs::write(&path, serde_json::to_string_pretty(&replay).unwrap()).ok()?;
     // the replay file must reproduce 3/3 in fresh processes before anything is reported
+    let mut confirmed = true;
     for _ in 0..3 {
         if fails(sock, &prefix, &spec, &class, method).is_none() {
-            let _ = std::fs::rename(&path, format!("{}.unconfirmed", path));
-            return None;
+            confirmed = false;
+            break;
         }
     }
+    if confirmed {
+        return Some(path);
+    }
+    // The minimised variant is timing dependent (it races with something the scheduler does
+    // not own, e.g. threads the library starts itself). Fall back to the run as it was
+    // found, with its whole process history, and report it only if that reproduces 3/3.
+    let _ = std::fs::rename(&path, format!("{}.unconfirmed", path));
+    let mut replay = replay;
+    for _ in 0..3 {
+        match fails(sock, &orig_prefix, &orig_spec, &class, method) {
+            Some(r) => {
+                replay.violation = r
+                    .violations
+                    .iter()
+                    .find(|v| same_kind(v, &class, method))
+                    .cloned();
+            }
+            None => return None,
+        }
+    }
+    replay.batch_prefix = orig_prefix.clone();
+    replay.spec = Some(orig_spec.clone());
+    replay.note = format!(
+        "not minimised: the minimised variant ({}) did not reproduce 3/3 (timing dependent); this is the run as found: {} ops on {} threads, {} crashes, {} history runs before it",
+        replay.note,
+        orig_spec.total_ops(),
+        orig_spec.threads(),
+        orig_spec.crashes.len(),
+        orig_prefix.len()
+    );
+    std::fs::write(&path, serde_json::to_string_pretty(&replay).unwrap()).ok()?;
     Some(path)
 }
 
